@@ -23,6 +23,14 @@ def regionOfList (r : List Rat) : Option Region :=
   | [w, e, s, n] => some ⟨w, e, s, n⟩
   | _ => none
 
+def parseProj (kind : String) (ps : List Rat) : Option Proj :=
+  match kind, ps with
+  | "affine", [a, b, c, d] => some (.affine a b c d)
+  | "cube", [k] => some (.cube k)
+  | "square", [] => some .square
+  | "shear", [k] => some (.shear k)
+  | _, _ => none
+
 def opsCoords (op : String) (a : List Val) : Option Val :=
   match op with
   | "line" => do
@@ -60,6 +68,14 @@ def opsCoords (op : String) (a : List Val) : Option Val :=
       let es ← argAt (List Rat) a 1
       let ns ← argAt (List Rat) a 2
       pure (toVal ((checkRegion region).map fun r => (es.zip ns).map fun (e, n) => insidePt r e n))
+  | "scatter" => do
+      pure (toVal (scatterPoints (← argAt (List Rat) a 0) (← argAt (List Rat) a 1) (← argAt (List Rat) a 2)
+        (← argAt (List Rat) a 3)))
+  | "maxabs" => do
+      pure (toVal (maxabs (← argAt (List (List Rat)) a 0)))
+  | "project_region" => do
+      let p ← parseProj (← argAt String a 1) (← argAt (List Rat) a 2)
+      pure (toVal (projectRegion (← argAt (List Rat) a 0) p))
   | "lon" => do
       let r := lonContinuity (← argAt Rat a 0) (← argAt Rat a 1) (← argAt Rat a 2) (← argAt Rat a 3)
         (← argAt (List Rat) a 4) (← argAt (List Rat) a 5)
